@@ -456,8 +456,9 @@ def parse_url(url_text: bytes) -> list[Node]:
                 offset := offset + len(url.path),
             )
         )
+    if url_text[offset : offset + 1] == b"?":
+        offset += 1  # query starts with ?, which is present even when the query is empty
     if url.query:
-        offset += 1  # query starts with ?
         out.append(
             Node(
                 "network.url.query",
